@@ -48,7 +48,7 @@ KIND_OF_CLASS = {"list": "KList", "tuple": "KTuple", "set": "KSet", "frozenset":
                  "dict": "KDict", "OrderedDict": "KOrderedDict", "defaultdict": "KDefaultDict", "Counter": "KCounter"}
 
 HEADER = '''
-import collections, collections.abc, datetime, decimal, typing
+import collections, collections.abc, datetime, decimal, typing, typing_extensions
 from dataclasses import dataclass, field
 from mashumaro import DataClassDictMixin, pass_through
 from mashumaro.config import BaseConfig, ADD_DIALECT_SUPPORT
@@ -84,6 +84,7 @@ class Schema:
         self.tds = []         # typed dicts: [(key, ty, required)]
         self.dialects = []    # list of (None | list of origin names)   None = no no_copy_collections attribute
         self.tvars = []       # constrained TypeVars: tuple of member types
+        self.nwrap = 0        # counter for named wrappers (NewType / alias / bound TypeVar)
         self.model = True     # every type is inside the Coq grammar
 
 
@@ -111,7 +112,49 @@ def key_ty(rng):
     return ("opt", ("atom", "str"))
 
 
+# Type wrappers that the library unwraps and re-dispatches.  A wrapper is a trailing marker "w:<kind>[:<n>]" on the
+# type tuple, so every function that reads the type positionally sees through it (as the library must):
+#   final, annotated, newtype:n, alias:n (PEP 695 `type X = ...`), tdreq / tdnotreq / readonly (TypedDict items);
+#   ("opt", t, "w:tvbound:n") is a TypeVar bound to t (the library treats it as Optional[t])
+WRAPPABLE = ("seq", "tupv", "tup", "nt", "map", "dc", "leaf")
+
+
+def wrapper_of(t):
+    m = t[-1]
+    return m[2:].split(":") if isinstance(m, str) and m.startswith("w:") else None
+
+
+def strip_wrappers(t):
+    while wrapper_of(t):
+        t = t[:-1]
+    return t
+
+
+def add_wrapper(sch: Schema, t, kind: str):
+    if kind == "tvbound":
+        sch.nwrap += 1
+        return ("opt", t, f"w:tvbound:{sch.nwrap}")
+    if kind in ("newtype", "alias"):
+        sch.nwrap += 1
+        return t + (f"w:{kind}:{sch.nwrap}",)
+    return t + (f"w:{kind}",)
+
+
+def maybe_wrap(rng, sch: Schema, t, p=0.12):
+    ok = t[0] in WRAPPABLE or (t[0] == "atom" and t[1] in ("int", "str"))
+    if ok and rng.random() < p:
+        kind = rng.choice(["annotated", "newtype", "alias", "annotated", "newtype", "alias", "tvbound"])
+        if kind == "tvbound" and t[0] == "atom":
+            kind = "newtype"
+        return add_wrapper(sch, t, kind)
+    return t
+
+
 def gen_ty(rng, sch: Schema, depth: int, lower_classes: list, extras: bool):
+    return maybe_wrap(rng, sch, gen_ty0(rng, sch, depth, lower_classes, extras))
+
+
+def gen_ty0(rng, sch: Schema, depth: int, lower_classes: list, extras: bool):
     """a random type; lower_classes = indexes of dataclasses that may be referenced"""
     r = rng.random()
     if depth <= 0:
@@ -172,6 +215,8 @@ def gen_ty(rng, sch: Schema, depth: int, lower_classes: list, extras: bool):
         if q < 0.3:
             fs = [(f"k{i}", gen_ty(rng, sch, depth - 1, lower_classes, extras), rng.random() < 0.7)
                   for i in range(rng.randint(1, 3))]
+            fs = [(a, add_wrapper(sch, b, rng.choice(["readonly", "tdreq" if r else "tdnotreq"]))
+                   if rng.random() < 0.4 and not wrapper_of(b) else b, r) for a, b, r in fs]
             sch.tds.append(fs)
             return ("td", len(sch.tds) - 1)
         if q < 0.45:
@@ -221,6 +266,8 @@ def gen_union_containers(rng, sch, lower_classes):
     members = []
     for _ in range(rng.choice([1, 1, 2])):
         m = container_member(rng, sch, lower_classes)
+        if rng.random() < 0.15 and m[0] in WRAPPABLE:
+            m = add_wrapper(sch, m, rng.choice(["annotated", "newtype", "alias"]))
         if m not in members:
             members.append(m)
     for a in rng.sample(["int", "str", "float", "bool", "none"], rng.choice([0, 1, 1, 2])):
@@ -291,6 +338,8 @@ def gen_schema(rng, depth: int, extras: bool, want_root_base=None) -> Schema:
             t = gen_ty(rng, sch, depth, lower, extras)
             if rng.random() < 0.05 and t[0] not in ("any", "opq", "dc", "opt", "union"):
                 t = ("pass", t)
+            elif t[0] in WRAPPABLE and rng.random() < 0.12:
+                t = add_wrapper(sch, t, "final")
             fields.append((f"f{j}", t))
         # make sure lower classes are reachable now and then
         if lower and rng.random() < 0.6:
@@ -341,6 +390,8 @@ def gen_schema_focus(rng) -> Schema:
         base = rng.choice(["dict", "dict", "orjson", "msgpack", "toml"]) if i == 0 else \
             rng.choice(["plain", "plain", "dict", "orjson", "msgpack"])
         fields = [(f"f{j}", rng.choice(SIMPLE_FIELDS)) for j in range(rng.randint(1, 3))]
+        fields = [(fn, add_wrapper(sch, ft, rng.choice(["final", "annotated", "newtype", "alias", "tvbound"]))
+                   if ft[0] in WRAPPABLE and rng.random() < 0.15 else ft) for fn, ft in fields]
         if i + 1 < ncls:
             t = ("dc", i + 1)
             wrap = rng.choice(["plain", "plain", "list", "dict", "opt"])
@@ -360,6 +411,18 @@ def gen_schema_focus(rng) -> Schema:
 # python source of a schema
 # ---------------------------------------------------------------------------
 def ty_src(t, sch: Schema) -> str:
+    w = wrapper_of(t)
+    if w:
+        if w[0] == "tvbound":
+            return f"TB{w[1]}"
+        if w[0] == "newtype":
+            return f"NW{w[1]}"
+        if w[0] == "alias":
+            return f"AL{w[1]}"
+        inner = ty_src(t[:-1], sch)
+        return {"final": "typing.Final[{}]", "annotated": "typing.Annotated[{}, 'meta']",
+                "tdreq": "typing_extensions.Required[{}]", "tdnotreq": "typing_extensions.NotRequired[{}]",
+                "readonly": "typing_extensions.ReadOnly[{}]"}[w[0]].format(inner)
     k = t[0]
     if k == "atom":
         return "None" if t[1] == "none" else t[1]
@@ -417,9 +480,24 @@ def schema_src(sch: Schema, top=None) -> str:
     out.append("class DP(Dialect):\n    serialization_strategy = {Opaque: pass_through}\n")
     # named tuples / typed dicts may mention classes and each other: emit classes bottom-up and
     # the record types lazily before their first use
-    emitted_nt, emitted_td, emitted_tv = set(), set(), set()
+    emitted_nt, emitted_td, emitted_tv, emitted_w = set(), set(), set(), set()
 
     def emit_records(t):
+        w = wrapper_of(t)
+        if w:
+            inner = t[1] if w[0] == "tvbound" else t[:-1]
+            emit_records(inner)
+            if len(w) > 1 and w[1] not in emitted_w:
+                emitted_w.add(w[1])
+                src = ty_src(inner, sch)
+                if w[0] == "tvbound":
+                    out.append(f"TB{w[1]} = typing.TypeVar('TB{w[1]}', bound={src})")
+                elif w[0] == "newtype":
+                    out.append(f"NW{w[1]} = typing.NewType('NW{w[1]}', {src})")
+                else:
+                    out.append(f"type AL{w[1]} = {src}")
+                out.append("")
+            return
         k = t[0]
         if k in ("pass", "opt", "tupv"):
             emit_records(t[1])
@@ -565,7 +643,7 @@ def gen_value_src(rng, t, sch: Schema, depth: int, wire: bool = False) -> str:
         # (interned () / frozenset() would alias typed results)
         return gen_any_src(rng, 2, True) if wire else gen_value_src(rng, t[1], sch, depth, wire=False)
     if k == "opt":
-        if rng.random() < 0.3 and not NO_NONE[0]:
+        if rng.random() < 0.3 and not NO_NONE[0] and not wrapper_of(t):
             return "None"
         return gen_value_src(rng, t[1], sch, depth, wire)
     if k == "seq":
@@ -1112,6 +1190,10 @@ def coq_dialect(nc):
 
 
 def coq_ty(t, sch) -> str:
+    w = wrapper_of(t)
+    if w:
+        inner = coq_ty(t[:-1], sch)
+        return inner if w[0] == "tvbound" else f"(TWrap {inner})"      # a bound TypeVar is handled as Optional[bound]
     k = t[0]
     if k == "atom":
         return "TAtom"
@@ -1149,9 +1231,10 @@ def coq_union(t, sch) -> str:
     list and at most one a mapping, (iii) no member that would iterate a str / a mapping's keys comes before the
     str / mapping member.  Other unions stay oracle-only (ValueError -> the case is not sent to Coq)."""
     ms = [m for m in t[1] if m != ("atom", "none")]
+    plain = [strip_wrappers(m) for m in ms]
     has_none = len(ms) != len(t[1])
     seqs, maps = [], []
-    for i, m in enumerate(ms):
+    for i, m in enumerate(plain):
         if m[0] == "atom":
             continue
         if m[0] in ("seq", "tupv", "tup", "nt"):
@@ -1162,7 +1245,7 @@ def coq_union(t, sch) -> str:
             raise ValueError("union member outside the model")
     if len(seqs) > 1 or len(maps) > 1 or not ms:
         raise ValueError("union members not told apart by class")
-    for i, m in enumerate(ms):
+    for i, m in enumerate(plain):
         if m == ("atom", "str") and seqs and seqs[0] < i:
             raise ValueError("a str would be iterated by an earlier member")
     if seqs and maps and seqs[0] < maps[0]:
@@ -1249,6 +1332,7 @@ def build_case(rng, side: str, depth: int, extras: bool):
     c = Case()
     c.side, c.sch, c.entry, c.top, c.focus = side, sch, entry, top, focus
     c.src = schema_src(sch, top)
+    c.src_types = repr((top, [k["fields"] for k in sch.classes], sch.nts, sch.tds))
     NO_NONE[0] = toml
     try:
         c.value_src = gen_value_src(rng, top, sch, depth, wire=(side == "unpack"))
@@ -1322,6 +1406,52 @@ def union_probe_cases(rng, side: str):
                 c.value_src = gen_value_src(rng, c.top, sch, 2, wire=(side == "unpack"))
             finally:
                 PREFER_CONTAINER[0] = False
+            c.call_src = entry_call_src(entry, ty_src(c.top, sch), side)
+            out.append(c)
+    return out
+
+
+WRAP_CONTS = [
+    ("seq", "list", ("atom", "int")), ("map", "dict", ("atom", "str"), ("atom", "int")), ("seq", "set", ("atom", "str")),
+    ("map", "dict", ("atom", "str"), ("seq", "list", ("atom", "int"))), ("seq", "list", ("seq", "list", ("atom", "int"))),
+    BARE["list"], BARE["dict"], ("seq", "deque", ("atom", "int")), ("tupv", ("seq", "list", ("atom", "int"))),
+    ("seq", "list", ("leaf", "date")), ("seq", "frozenset", ("atom", "int")), ("map", "OrderedDict", ("atom", "str"), ("atom", "float")),
+    ("seq", "list", ("any",)),
+]
+
+
+def wrapper_probe_cases(rng, side: str):
+    """systematic sweep: every unwrap-and-redispatch wrapper around every container kind, at field level and (where
+    the wrapper is legal there) as list item / dict value; default dialect and a no_copy dialect; mixin and codec"""
+    out = []
+    plans = [(None, {"api": "mixin", "fmt": None}), (None, {"api": "codec", "fmt": None, "dd": None})]
+    if side == "pack":
+        plans.append((0, {"api": "mixin", "fmt": None}))
+    for kind in ("final", "annotated", "newtype", "alias", "tvbound", "td"):
+        for dialect, entry in plans:
+            sch = Schema()
+            sch.dialects = [["list", "dict", "set"]]
+            fields = []
+            if kind == "td":
+                sch.model = False
+                items = []
+                for j, ct in enumerate(WRAP_CONTS):
+                    req = j % 3 != 2
+                    items.append((f"k{j}", add_wrapper(sch, ct, ["readonly", "tdreq" if req else "tdnotreq", "tdreq" if req else "tdnotreq"][j % 3]), req))
+                sch.tds.append(items)
+                fields.append(("f0", ("td", 0)))
+            else:
+                for j, ct in enumerate(WRAP_CONTS):
+                    fields.append((f"f{j}", add_wrapper(sch, ct, kind)))
+                    if kind != "final":
+                        inner = add_wrapper(sch, ct, kind)
+                        fields.append((f"g{j}", ("seq", "list", inner) if j % 2 else ("map", "dict", ("atom", "str"), inner)))
+            sch.classes = [{"name": "C0", "base": "dict", "sup": False, "dialect": dialect, "fields": fields}]
+            c = Case()
+            c.side, c.sch, c.entry, c.top, c.focus = side, sch, entry, ("dc", 0), True
+            c.src = schema_src(sch, c.top)
+            c.src_types = repr(fields) + repr(sch.tds)
+            c.value_src = gen_value_src(rng, c.top, sch, 2, wire=(side == "unpack"))
             c.call_src = entry_call_src(entry, ty_src(c.top, sch), side)
             out.append(c)
     return out
@@ -1571,6 +1701,19 @@ def coq_wire(w, t, sch, labels) -> str:
     return coq_value(w, labels)
 
 
+def in_model_grammar(c: Case) -> bool:
+    """schema and top type are inside the Coq grammar (where Share.v predicts a result for every conforming input)"""
+    if not c.sch.model:
+        return False
+    WIRE_SIDE_COQ[0] = c.side == "unpack"
+    try:
+        coq_ty(c.top, c.sch)
+        coq_classes(c.sch)
+        return True
+    except (ValueError, KeyError):
+        return False
+
+
 def correspondence(ctx, cases, side):
     name = f"c18_{side}"
     terms, idx = [], []
@@ -1603,6 +1746,9 @@ def hist_case(ctx, c: Case):
     ctx.hist("top_kind", c.top[0])
     ctx.hist("n_classes", str(len(c.sch.classes)))
     ctx.hist("in_coq_grammar", str(c.sch.model))
+    for k in ("final", "annotated", "newtype", "alias", "tvbound", "readonly", "tdreq", "tdnotreq"):
+        if f"w:{k}" in getattr(c, "src_types", ""):
+            ctx.hist("wrappers", f"{c.side}:{k}")
     ctx.hist("generator", "dialect-interplay" if getattr(c, "focus", False) else "general")
 
 
@@ -1631,20 +1777,24 @@ def run(ctx: vlib.Ctx):
     n_unpack = ctx.budget(180, 1200)
     for side, n in (("pack", n_pack), ("unpack", n_unpack)):
         cases = []
+        crashes = []       # the model is total on conforming inputs of its grammar: the library must be, too
         attempts = 0
-        probes = fixed_cases(ctx.rng, side) + union_probe_cases(ctx.rng, side)
+        probes = fixed_cases(ctx.rng, side) + union_probe_cases(ctx.rng, side) + wrapper_probe_cases(ctx.rng, side)
         while len(cases) < n and attempts < n * 3:
             attempts += 1
             extras = ctx.rng.random() < 0.3
             depth = ctx.rng.choice([1, 2, 2, 3, 3] if ctx.quick() else [1, 2, 3, 3, 4])
+            c = None
             try:
                 c = probes.pop() if probes else build_case(ctx.rng, side, depth, extras)
                 run_case(c)
-            except Exception as e:      # schema the library rejects at class creation: not a C18 matter
+            except Exception as e:      # the library rejects the schema at class creation
                 ctx.hist("outcome", "schema-rejected:" + type(e).__name__)
+                if c is not None and in_model_grammar(c):
+                    crashes.append((c, f"class creation / codec construction raised {type(e).__name__}: {e}"))
                 continue
-            finally:
-                pass
+            if c.exc is not None and in_model_grammar(c):
+                crashes.append((c, "call raised " + c.exc))
             c.coq = coq_case(c)         # before the oracle damages the result
             if mentions(c.top, "union") or any(mentions(ft, "union") for k in c.sch.classes for _, ft in k["fields"]):
                 ctx.hist("union_cases", f"{side}:" + ("model+oracle" if c.coq else "oracle-only"))
@@ -1656,11 +1806,20 @@ def run(ctx: vlib.Ctx):
                 ctx.sample({"side": side, "call": c.call_src, "value": c.value_src[:200],
                             "fields_root": [f"{fn}: {ty_src(ft, c.sch)}" for fn, ft in c.sch.classes[0]["fields"]]})
         correspondence(ctx, cases, side)
+        cname = f"library-total-where-model-is ({side})"
+        det = ""
+        if crashes:
+            c0, why = crashes[0]
+            det = json.dumps({"n_raised": len(crashes), "first": {"why": why[:400], "call": c0.call_src,
+                                                                   "value": c0.value_src[:600], "schema": c0.src[len(HEADER):][-1500:]}})
+        ctx.correspondence(cname, len(crashes), len(crashes), det)     # the agreeing cases are counted in the row above
+        if crashes:
+            ctx.not_shown("correspondence " + cname, det)
         for c in cases:
             drop_module(c.mod)
 
 
-THEOREMS = ["C18_share", "C18_decode_fresh", "C18_default_fresh", "C18_decode_all_fresh", "C18_decode_union_fresh", "C18_no_mutation",
+THEOREMS = ["C18_wrapper_transparent", "C18_share", "C18_decode_fresh", "C18_default_fresh", "C18_decode_all_fresh", "C18_decode_union_fresh", "C18_no_mutation",
             "C18_decode_no_mutation", "C18_share_partial", "C18_share_full_refuted"]
 
 
